@@ -4,15 +4,15 @@ import datetime
 import astral.moon as moon
 import astral.sidereal as sidereal
 from astral import Observer
-from common import F, FS, I, T, E, N, Case, call, wall_us, instant_us
+from common import F, FS, I, T, TZD, E, N, Case, call, wall_us, instant_us
 import zones
 import gens
 
 UTC = datetime.timezone.utc
 
 
-def opt_inst(v):
-    return N if v is None else T(instant_us(v))
+def opt_inst(v, tz=UTC):
+    return N if v is None else TZD(v, tz)
 
 
 def gen_position(rng, n, tier="quick"):
@@ -68,12 +68,41 @@ def gen_angles(rng, n, tier="quick"):
                    {"latitude": lat, "longitude": lon, "datetime": dt.isoformat(), "zone": zl})
 
 
+def lon_for_end_of_utc_day(rng, lat, lon, d, idx):
+    """slide the observer east/west so that the moon event of UTC day `d` falls in the last
+    minute of that UTC day (the half-minute rounding carry, defect D5)"""
+    for _ in range(3):
+        st, v = call(moon.riseset, d, Observer(lat, lon))
+        if st != "ok" or v[idx] is None:
+            return lon
+        t = v[idx]
+        tod = t.hour * 60 + t.minute
+        want = 1439.6 + rng.uniform(-0.4, 0.6)
+        delta_min = want - tod                       # we want the event this much later
+        if delta_min > 720:
+            delta_min -= 1440
+        lon = lon - delta_min / 4.14                 # moving west delays the event
+        lon = (lon + 180.0) % 360.0 - 180.0
+    return lon
+
+
 def gen_riseset(rng, n, tier="quick"):
     for i in range(n):
         lat = gens.rand_lat(rng, polar=(rng.random() < 0.3))
         lon = gens.rand_lon(rng)
-        o = Observer(lat, lon)
         k = i % 3
+        if rng.random() < 0.12 and abs(lat) < 65:
+            d_ = gens.rand_date(rng, wide=False)
+            lon = lon_for_end_of_utc_day(rng, lat, lon, d_, rng.choice([0, 1]))
+            o = Observer(lat, lon)
+            st, v = call(moon.riseset, d_, o)
+            yield Case("riseset", "riseset %s %s %s" % (I(d_.toordinal()), F(lat), F(lon)),
+                       ("%s %s" % (opt_inst(v[0]), opt_inst(v[1]))) if st == "ok" else E(v),
+                       {"date": str(d_), "latitude": lat, "longitude": lon},
+                       tuple("last-minute" for x in (v if st == "ok" else ()) if x is not None
+                             and x.hour == 23 and x.minute == 59))
+            continue
+        o = Observer(lat, lon)
         if k == 0:
             d = gens.rand_date(rng, wide=(rng.random() < 0.3))
             st, v = call(moon.riseset, d, o)
@@ -94,7 +123,7 @@ def gen_riseset(rng, n, tier="quick"):
             if st == "ok":
                 tags = ("none",) if v is None else ("utc%+d" % (v.astimezone(UTC).date() - d).days,)
             yield Case(name, "%s %s %s %s %s" % (name, F(lat), F(lon), I(d.toordinal()), z.tok),
-                       opt_inst(v) if st == "ok" else E(v),
+                       opt_inst(v, z.tzinfo) if st == "ok" else E(v),
                        {"date": str(d), "latitude": lat, "longitude": lon, "zone": z.describe()},
                        tags)
 
